@@ -124,7 +124,7 @@ def _fns():
     return [RunEngine._open_run, default_scan_id_source, RunEngine.__call__]
 
 
-register(Harness("c17_metadata", "C17", make, {"quick": dict(nkeys=3, small_m2=True, shards=32, budget_s=300, per_path_s=30), "thorough": dict(nkeys=4, shards=256, budget_s=3000, per_path_s=30)},
+register(Harness("c17_metadata", "C17", make, {"quick": dict(nkeys=3, small_m2=True, shards=32, budget_s=300, per_path_s=30), "thorough": dict(nkeys=4, small_m2=True, shards=64, budget_s=3000, per_path_s=30)},
                  goals=["merged", "rejected", "scan_id-overridden"], functions=_fns, mode="schedule",
                  symbolic="presence masks over the keys {a, plan_name, scan_id[, b]} for persistent md, the open_run metadata of run 1 and of run 2, and the RE(...) keyword metadata; "
                  "normalizer on/off; validator in {accept, reject run 2, reject when 'a' comes from the call}",
